@@ -74,7 +74,7 @@ func (msg MsgIssueToken) ValidateBasic() error {
 		return errorsmod.Wrapf(sdkerrors.ErrInvalidAddress, "invalid owner address (%s)", err)
 	}
 
-	return NewToken(
+	token := NewToken(
 		msg.Symbol,
 		msg.Name,
 		msg.MinUnit,
@@ -83,7 +83,17 @@ func (msg MsgIssueToken) ValidateBasic() error {
 		msg.MaxSupply,
 		msg.Mintable,
 		owner,
-	).Validate()
+	)
+	if token.MaxSupply < token.InitialSupply {
+		return errorsmod.Wrapf(
+			tokentypes.ErrInvalidMaxSupply,
+			"invalid token max supply %d, only accepts value [%d, %d]",
+			token.MaxSupply,
+			token.InitialSupply,
+			uint64(tokentypes.MaximumMaxSupply),
+		)
+	}
+	return token.Validate()
 }
 
 // GetSignBytes Implements Msg.
